@@ -206,8 +206,13 @@ func (e Float64Engine) Add(a Tensor, b Tensor, opts ...FuncOpt) (retVal Tensor, 
 		vecf64.IncrAdd(dataA, dataB, dataReuse)
 		retVal = reuse
 	case toReuse:
-		copy(dataReuse, dataA)
-		vecf64.Add(dataReuse, dataB)
+		if len(dataReuse) > 0 && len(dataB) > 0 && &dataReuse[0] == &dataB[0] {
+			// the destination is b itself: copying a over it first would lose b (a+b == b+a)
+			vecf64.Add(dataReuse, dataA)
+		} else {
+			copy(dataReuse, dataA)
+			vecf64.Add(dataReuse, dataB)
+		}
 		retVal = reuse
 	case !safe:
 		vecf64.Add(dataA, dataB)
